@@ -503,11 +503,13 @@ def _t_full(c):
 
 @template("s:linspace", "shape")
 def _t_linspace(c):
-    s = c.shape(0, 1)
+    res = c.shape(0, 2)
+    s, s2 = c.bshape(res), c.bshape(res)
     n = c.int(1, 5)
     form = c.int(0, 1)
     fn = (lambda ns, x, y: ns.linspace(x, y, n)) if form == 0 else (lambda ns, x, y: ns.linspace(x, y, num=n))
-    return Call("s:linspace", fn, [s, s], desc=["linspace", list(s), n, form], feats={"fn": "linspace", "ndim": len(s), "form": form})
+    return Call("s:linspace", fn, [s, s2], desc=["linspace", list(s), list(s2), n, form],
+                feats={"fn": "linspace", "ndim": len(s), "form": form, "broadcast": s != s2})
 
 
 @template("s:diff", "shape")
